@@ -36,11 +36,17 @@ def s_lit(text):
 
 
 def dotted(node):
-    """a.b.c for Name/Attribute chains, else None."""
+    """a.b.c for Name/Attribute chains (a.b().c when a link is a call without arguments), else None."""
     parts = []
-    while isinstance(node, ast.Attribute):
-        parts.append(node.attr)
-        node = node.value
+    while True:
+        if isinstance(node, ast.Attribute):
+            parts.append(node.attr)
+            node = node.value
+        elif isinstance(node, ast.Call) and not node.args and not node.keywords and isinstance(node.func, ast.Attribute) and parts:
+            parts.append(node.func.attr + "()")
+            node = node.func.value
+        else:
+            break
     if isinstance(node, ast.Name):
         parts.append(node.id)
         return ".".join(reversed(parts))
@@ -406,6 +412,8 @@ class Fn:
                 return "(Z.of_nat (length %s))" % a, "Z"
             if ta == "metrics":
                 return "(Z.of_nat %s)" % a, "Z"
+            if ta.startswith("list "):
+                return "(Z.of_nat (length %s))" % a, "Z"
         if isinstance(f, ast.Attribute) and f.attr == "get" and len(e.args) == 2 and dotted(f.value) in self.env \
                 and self.env[dotted(f.value)][1] == "config":
             k, tk = self.expr(e.args[0])
@@ -498,7 +506,14 @@ class Fn:
         self.fresh += 1
         return "%s%d" % (base, self.fresh)
 
+    def state_tuple(self):
+        return "(" + ", ".join(self.state[p][0] for p in self.state_order) + ")" if len(self.state_order) > 1 else self.state[self.state_order[0]][0]
+
     def block(self, stmts):
+        if not stmts and getattr(self, "in_loop", 0):
+            return self.state_tuple()           # the end of a loop body: the state it leaves behind
+        if stmts and getattr(self, "in_loop", 0) and isinstance(stmts[0], (ast.Return, ast.Raise, ast.Break, ast.Continue)):
+            raise Unsupported("%s inside a translated loop body" % type(stmts[0]).__name__)
         if not stmts:
             if self.spec.get("falls_off"):
                 return self.result(None)
@@ -509,6 +524,84 @@ class Fn:
             return self.block(rest)
         if isinstance(st, ast.Expr) and isinstance(st.value, ast.Constant) and isinstance(st.value.value, str):
             return self.block(rest)
+        if isinstance(st, ast.AnnAssign) and st.value is None:
+            return self.block(rest)             # a bare annotation
+        if isinstance(st, ast.Try) and not st.orelse and not st.finalbody and st.handlers and self.spec.get("isolating_try") \
+                and all(dotted(h.type) in ("BaseException", "Exception") and all(
+                    isinstance(x, ast.Expr) and isinstance(x.value, ast.Call) and (dotted(x.value.func) or "").startswith("logging.") for x in h.body)
+                    for h in st.handlers):
+            self.notes.append("try: ... except (Base)Exception: <log>  - translated as its body: what happens when something in it raises is the "
+                              "exception-flow skeleton's subject (gen/Skeleton.v), not this translation's")
+            return self.block(list(st.body) + list(rest))
+        if isinstance(st, ast.With) and len(st.items) == 1 and st.items[0].optional_vars is None \
+                and dotted(st.items[0].context_expr) in self.spec.get("transparent_withs", []):
+            self.notes.append("`with %s:` is declared transparent (its enter / exit change nothing that is modelled here)" % dotted(st.items[0].context_expr))
+            return self.block(list(st.body) + list(rest))
+        if isinstance(st, ast.With) and len(st.items) == 1 and isinstance(st.items[0].optional_vars, ast.Name) \
+                and isinstance(st.items[0].context_expr, ast.Call) and dotted(st.items[0].context_expr.func) in self.spec.get("binding_withs", []):
+            # with <declared call>(..) as x:   x is what the declared call answers
+            v, tv = self.expr(st.items[0].context_expr)
+            return self.bind(st.items[0].optional_vars.id, v, tv, list(st.body) + list(rest))
+        if isinstance(st, ast.For) and not st.orelse and isinstance(st.target, ast.Name) and self.state_order and not self.has_break(st.body) \
+                and self.spec.get("state_loops") and dotted(st.iter) in self.env and self.env[dotted(st.iter)][1].startswith("list "):
+            # for x in L: <statements on the declared state>     ==   a fold over L carrying the state
+            seq, ts_ = self.expr(st.iter)
+            x = self.new(st.target.id + "_")
+            saved_env, saved_state = dict(self.env), dict(self.state)
+            inner = {p_: self.new(self.spec["state_names"][p_]) for p_ in self.state_order}
+            for p_ in self.state_order:
+                self.state[p_] = (inner[p_], saved_state[p_][1])
+            self.env[st.target.id] = (x, ts_[len("list "):])
+            self.in_loop = getattr(self, "in_loop", 0) + 1
+            try:
+                body = self.block(list(st.body))
+            finally:
+                self.in_loop -= 1
+            self.env = saved_env
+            acc_ty = " * ".join(saved_state[p_][1] if " " not in saved_state[p_][1] else "(%s)" % saved_state[p_][1] for p_ in self.state_order)
+            pat = "(" + ", ".join(inner[p_] for p_ in self.state_order) + ")" if len(self.state_order) > 1 else inner[self.state_order[0]]
+            init = "(" + ", ".join(saved_state[p_][0] for p_ in self.state_order) + ")" if len(self.state_order) > 1 else saved_state[self.state_order[0]][0]
+            outs = {p_: self.new(self.spec["state_names"][p_]) for p_ in self.state_order}
+            for p_ in self.state_order:
+                self.state[p_] = (outs[p_], saved_state[p_][1])
+            pat_out = "'(" + ", ".join(outs[p_] for p_ in self.state_order) + ")" if len(self.state_order) > 1 else outs[self.state_order[0]]
+            lam = "(fun (acc_ : %s) (%s : %s) => let %s := acc_ in %s)" % (acc_ty, x, ts_[len("list "):], ("'" + pat) if len(self.state_order) > 1 else pat, body)
+            return "(let %s := fold_left %s %s %s in %s)" % (pat_out, lam, seq, init, self.block(rest))
+        if isinstance(st, ast.If) and not st.orelse and isinstance(st.test, ast.BoolOp) and isinstance(st.test.op, ast.And) \
+                and any(isinstance(v, ast.Call) and dotted(v.func) in self.spec.get("eff_calls", {}) for v in st.test.values):
+            # if A and <call that answers a truth value AND changes state> [and ...]: BODY       (short-circuit, left to right)
+            def chain(values):
+                if not values:
+                    return self.block(list(st.body) + list(rest))
+                v0, more = values[0], values[1:]
+                if isinstance(v0, ast.Call) and dotted(v0.func) in self.spec.get("eff_calls", {}):
+                    ec = self.spec["eff_calls"][dotted(v0.func)]
+                    if ec["ret"] != "bool" or v0.keywords:
+                        raise Unsupported("effectful call of type %s in a condition" % ec["ret"])
+                    args = [self.expr(a) for a in v0.args]
+                    if len(args) != len(ec["args"]):
+                        raise Unsupported("call %s with %d arguments" % (dotted(v0.func), len(args)))
+                    args = [self.coerce(a, t, w) for (a, t), w in zip(args, ec["args"])]
+                    call = " ".join([self.subst(ec["fn"])] + args)
+                    b = self.new("ok_")
+                    names = [self.new(self.spec["state_names"][p_]) for p_ in ec["updates"]]
+                    for p_, n in zip(ec["updates"], names):
+                        self.state[p_] = (n, self.state[p_][1])
+                    after = dict(self.state)
+                    yes = chain(more)
+                    self.state = dict(after)
+                    no = self.block(list(rest))
+                    return "(let '(%s, %s) := %s in (if %s then %s else %s))" % (b, ", ".join(names), call, b, yes, no)
+                c, tc = self.expr(v0)
+                before = dict(self.state)
+                yes = chain(more)
+                self.state = dict(before)
+                no = self.block(list(rest))
+                return "(if %s then %s else %s)" % (self.truth(c, tc), yes, no)
+            saved_state, saved_env = dict(self.state), dict(self.env)
+            out = chain(list(st.test.values))
+            self.state, self.env = saved_state, saved_env
+            return out
         if isinstance(st, ast.ClassDef) and st.name in self.spec.get("local_classes", {}):
             self.notes.append("class %s (defined inside the function) is declared: %s" % (st.name, self.spec["local_classes"][st.name]))
             return self.block(rest)
@@ -775,6 +868,9 @@ class Fn:
             pat = dotted(st.target)
             v, tv = self.expr(ast.BinOp(left=st.target, op=st.op, right=st.value))
             return self.bind(pat, v, tv, rest)
+        if isinstance(st, ast.Expr) and isinstance(st.value, ast.Call) and (dotted(st.value.func) or "").startswith("logging.") \
+                and self.spec.get("isolating_try"):
+            return self.block(rest)
         if isinstance(st, ast.Expr) and isinstance(st.value, ast.Call) and dotted(st.value.func) in self.spec.get("noop_calls", []):
             self.notes.append("%s(...) is declared to have no effect on the modelled state" % dotted(st.value.func))
             return self.block(rest)
@@ -1280,6 +1376,38 @@ SPECS = [
          params="(is_app : str -> bool * option str) (filename : str)", ret="str * bool", args=["self", "filename"],
          env={"filename": ("filename", "str")},
          calls={"self.__source.is_app_frame": ("is_app", ["str"], "(bool * option str)")}),
+    # ---- one trace event through the handler: matching, then every matching action's own gate / limits / processing (C03)
+    dict(group="Event", name="gen_location_from_event", path="processor/trigger_handler.py", cls="TriggerHandler", func="location_from_event",
+         params="{F : Type} (co_filename : F -> str) (f_lineno : F -> Z) (co_name : F -> str) (event : str) (frame : F)",
+         ret="str * str * Z * str", args=["event", "frame"],
+         env={"event": ("event", "str"), "frame.f_code.co_filename": ("(co_filename frame)", "str"), "frame.f_lineno": ("(f_lineno frame)", "Z"),
+              "frame.f_code.co_name": ("(co_name frame)", "str")},
+         calls={"os.path.basename": ("basename", ["str"], "str")}),
+    dict(group="Event", name="gen_trace_call", path="processor/trigger_handler.py", cls="TriggerHandler", func="_trace_call",
+         params="{S A CB PC F T : Type} (inert : bool) (location_from_event : str -> F -> str * str * Z * str) (callbacks_set : S -> bool) "
+                "(process_call_backs : str -> str -> Z -> str -> S -> S) (tp_config : list T) "
+                "(actions_for : str -> str -> Z -> str -> list A) (can_trigger : A -> S -> bool) (acquire : A -> S -> bool * S) "
+                "(process : A -> S -> S) (callbacks_of : S -> list CB) (mk_pending : str -> str -> Z -> str -> list CB -> PC) "
+                "(push_pending : PC -> S -> S) (s : S) (frame : F) (event : str)",
+         ret="S * bool", args=["self", "frame", "event", "arg"],
+         on_return={"none": "false", "value": "(fun _ : unit => true) %s"},
+         isolating_try=True, state_loops=True, transparent_withs=["trigger_context"], binding_withs=["trigger_context.action_context"],
+         env={"self.__inert": ("inert", "bool"), "frame": ("frame", "F"), "event": ("event", "str"), "arg": ("tt", "unit"),
+              "self._config": ("tt", "unit"), "self._push_service": ("tt", "unit"), "self.trace_call": ("tt", "unit"),
+              "self._callbacks.is_set": ("(callbacks_set {<s>})", "bool"), "self._tp_config": ("tp_config", "list T"),
+              "trigger_context.callbacks": ("(callbacks_of {<s>})", "list CB")},
+         state={"<s>": ("s", "S")}, state_names={"<s>": "s"},
+         calls={"self.location_from_event": ("location_from_event", ["str", "F"], "(str * str * Z * str)"),
+                "TriggerContext": ("(fun (_ _ : unit) (_ : F) (_ : str) (_ : unit) => tt)", ["unit", "unit", "F", "str", "unit"], "unit"),
+                "self.__actions_for_location": ("(fun e_ fi_ li_ fu_ (_ : F) => actions_for e_ fi_ li_ fu_)", ["str", "str", "Z", "str", "F"], "list A"),
+                "trigger_context.action_context": ("(fun a_ : A => a_)", ["A"], "A"),
+                "ctx.can_trigger": ("can_trigger {ctx} {<s>}", [], "bool"),
+                "CallbackContext": ("mk_pending", ["str", "str", "Z", "str", "list CB"], "PC")},
+         eff_calls={"ctx.acquire": dict(fn="acquire {ctx} {<s>}", args=[], ret="bool", updates=["<s>"])},
+         stmt_calls={"self.__process_call_backs": dict(fn="(fun (_ _ : unit) (_ : F) e_ fi_ li_ fu_ => process_call_backs e_ fi_ li_ fu_ {<s>})",
+                                                       updates=["<s>"], args=["unit", "unit", "F", "str", "str", "Z", "str"]),
+                     "ctx.process": dict(fn="process {ctx} {<s>}", updates=["<s>"], args=[]),
+                     "self._callbacks.get().append": dict(fn="(fun pc_ => push_pending pc_ {<s>})", updates=["<s>"], args=["PC"])}),
     # ---- which frames of the stack carry variables (C02)
     dict(group="Select", name="gen_should_collect_vars", path="processor/context/snapshot_action.py", cls="SnapshotActionContext", func="should_collect_vars",
          params="(config : args) (current_frame_index : Z)", ret="bool", args=["self", "current_frame_index"],
@@ -1303,6 +1431,7 @@ GROUPS = {           # generated file -> (imports, which properties' theorems ar
     "Collect": ("From Deep Require Import Base PureSupport.", ["C05", "C07"]),
     "Children": ("From Deep Require Import Base PureSupport.", ["C05", "C02"]),
     "Render": ("From Deep Require Import Base PureSupport.", ["C02"]),
+    "Event": ("From Deep Require Import Base Match PureSupport.", ["C03"]),
     "Select": ("From Deep Require Import Base TriggerTable PureSupport.", ["C02"]),
     "Truth": ("From Deep Require Import Base Config PureSupport.", ["C10", "C19"]),
     "Gate": ("From Deep Require Import Base Config Limiter Cond PureSupport.\nFrom DeepGen Require Import PTruth.", ["C10"]),
